@@ -6,6 +6,7 @@ the model): order n+1 is the derivative of order n (Cauchy integral / Richardson
 contour where f is analytic and NumPy supports complex arguments; central differences in exact
 arithmetic of the closed form otherwise)."""
 import math
+import os
 import numpy as np
 import scipy.special as sp
 from fractions import Fraction as F
@@ -282,6 +283,10 @@ def calling_fails(ctx, case):
 
 
 def replay_case(ctx, case):
+    if case.get('op') == 'mpmath-subcheck':
+        before = len(ctx.failures)
+        mpmath_subcheck(ctx)
+        return ctx.failures.pop()[1] if len(ctx.failures) > before else None
     if case.get('calling'):
         return calling_fails(ctx, case)
     return run_case(ctx, case)
@@ -290,8 +295,35 @@ def replay_case(ctx, case):
 HIGH_ORDER_FNS = ['exp', 'exp2', 'expm1', 'log', 'log2', 'log10', 'log1p', 'sqrt', 'reciprocal', 'sin', 'cos', 'sinh', 'cosh', 'arctanh']
 
 
+def mpmath_subcheck(ctx):
+    """nthderiv.tan / tanh exist only when mpmath is importable; it is in the tooling interpreter python3-vt, not in /venv: run the
+    closed-form comparison there (skipped, and said so in the evidence, when that interpreter or mpmath is missing)"""
+    import json as _json, shutil, subprocess
+    exe = shutil.which('python3-vt')
+    if not exe:
+        ctx.count('mpmath-subcheck=skipped(no python3-vt)')
+        return
+    env = dict(os.environ, ALGOPY_REPO=os.environ.get('ALGOPY_REPO', '/repo'))
+    try:
+        out = subprocess.run([exe, os.path.join(os.path.dirname(os.path.dirname(os.path.abspath(__file__))), 'mpmath_subcheck.py')],
+                             capture_output=True, text=True, timeout=300, env=env).stdout.strip().splitlines()
+        res = _json.loads(out[-1])
+    except Exception as ex:
+        ctx.count('mpmath-subcheck=skipped(%s)' % type(ex).__name__)
+        return
+    if 'skipped' in res:
+        ctx.count('mpmath-subcheck=skipped(mpmath)')
+        return
+    ctx.evaluations += res.get('checked', 0)
+    ctx.count('mpmath-subcheck=run')
+    if not res['ok']:
+        ctx.report({'op': 'mpmath-subcheck', 'failures': res['failures']}, 'failure',
+                   'mpmath-tan-tanh: nthderiv.tan / tanh differ from their closed forms (run under python3-vt): %s' % '; '.join(res['failures'][:3]))
+
+
 def run(ctx):
     names = sorted(T)
+    mpmath_subcheck(ctx)
     # high orders (beyond 20!, where a factorial no longer fits into 64-bit integers) of the functions whose closed form is a
     # single term (no cancellation): the same closed form of the model, in exact rational arithmetic
     for name in [n_ for n_ in HIGH_ORDER_FNS if n_ in T]:
@@ -327,6 +359,20 @@ def run(ctx):
         r = calling_fails(ctx, cc)
         if r:
             ctx.report(cc, 'failure', r)
+    # the calling conventions (no out / fresh out / out aliasing the points) for EVERY function at orders 0, 1, 2 on every run,
+    # with points on both sides of the interval for clip
+    for name in names:
+        for n_ in (0, 1, 2):
+            case = gen_case(ctx.rng, ctx.tier, name)
+            case['n'] = n_
+            if name == 'clip':
+                case['x'] = [0.25, 0.9, -0.7][n_]
+            cc = dict(case, calling=True, seed=ctx.rng.randrange(1 << 30))
+            ctx.evaluations += 1
+            ctx.count('calling-systematic')
+            r = calling_fails(ctx, cc)
+            if r:
+                ctx.report(cc, 'failure', r)
     # the parameterised functions at every low order (array-valued parameters mixing order 0 with higher orders)
     for name in ('polygamma', 'hyperu'):
         for n_ in (0, 1, 2):
